@@ -265,6 +265,14 @@ Proof.
   apply skip_count; [reflexivity|exact Hcomp].
 Qed.
 
+Lemma prerender_ok : forall z,
+  no_bad_boundary z -> rmsg_has_failing_producer z = false -> err (prerender z) = false.
+Proof.
+  intros z B Hf. unfold prerender, write_resolved_gen.
+  pose proof (headers_step z (mw_init unlimited) good_init) as (G4 & O4 & D4 & M4 & P4).
+  destruct (write_entity_top true z _ B Hf G4) as (G5 & _); [rewrite D4; reflexivity|]. apply G5.
+Qed.
+
 Theorem sign_input_is_entity : forall z t,
   no_bad_boundary z -> rmsg_has_failing_producer z = false ->
   forest_gen true z = [t] ->
@@ -366,7 +374,7 @@ Theorem signed_output_form : forall signer d i rb sb m t,
 Proof.
   intros signer d i rb sb m t z B Hf Ht. cbv zeta.
   rewrite <- resolve_failing with (date := d) (msgid := i) (rb := rb) in Hf. fold z in Hf.
-  unfold write_to_signed. fold z. rewrite (sign_input_is_entity z t B Hf Ht).
+  unfold write_to_signed. fold z. rewrite (prerender_ok z B Hf), (sign_input_is_entity z t B Hf Ht).
   destruct (signed_render_good z t sb (signer (ser_node t)) (mw_init unlimited) B Hf Ht good_init eq_refl)
     as (G & _ & O).
   cbn [s_err s_panic s_input s_out]. destruct G as (Ge & Gp & _).
@@ -428,7 +436,7 @@ Qed.
 (* ---------- (5) rendering again ---------- *)
 Lemma s_msg_resolve : forall signer d i rb sb m k,
   s_msg (write_to_signed signer d i rb sb m k) = z_msg (resolve d i rb m).
-Proof. intros. unfold write_to_signed. destruct (sign_input _); reflexivity. Qed.
+Proof. intros. unfold write_to_signed. destruct (err _); [reflexivity|]. destruct (sign_input _); reflexivity. Qed.
 
 (* after any signed render (successful or failed, any destination, any wrapper boundary) a later
    signed render of the message behaves exactly like the first one would: same signer input, same
